@@ -85,3 +85,15 @@ Theorem c02_fuse_read : forall psize total off flen o n fuel,
   chained (off + o) l /\ rsum l = fuse_read flen o n /\ (0 < rsum l -> off + o + rsum l <= off + flen).
 Proof. exact fuse_read_served. Qed.
 Print Assumptions c02_fuse_read.
+
+(* Concurrent FUSE reads on one handle are served one at a time (the handle's semaphore), in an order the
+   callers do not control.  For every sequence of reads (offset, size) in any order, each read returns
+   consecutive ranges from the file's offset + its own offset adding up to min(size, bytes of the file
+   after that offset) - its own bytes, whatever the reads before it did to the shared reader. *)
+Theorem c02_fuse_reads_any_order : forall psize total ops r,
+  rd_wf psize total r -> rd_closed r = false -> rd_offset r + rd_length r <= total ->
+  Forall (fun op => 0 <= fst op /\ 0 < snd op) ops ->
+  Forall2 (fun op l => chained (rd_offset r + fst op) l /\ rsum l = fuse_read (rd_length r) (fst op) (snd op))
+          ops (fuse_ops psize total r ops).
+Proof. exact fuse_ops_spec. Qed.
+Print Assumptions c02_fuse_reads_any_order.
